@@ -719,6 +719,8 @@ func main() {
 			}
 		case "fevent":
 			r.fevent(tr, o)
+		case "items":
+			r.items(tr, o)
 		default:
 			hx.Fatal("unknown op %q", op)
 		}
